@@ -3,6 +3,8 @@ package rules
 import (
 	"fmt"
 	"go/token"
+	"sort"
+	"strings"
 
 	"golang.org/x/tools/go/ssa"
 
@@ -43,6 +45,8 @@ func runC08(c *core.Ctx) {
 	c02R9(c, "C08.R6")
 	c18R1as(c, "C08.R7")
 	c18R2as(c, "C08.R8")
+	counterTransitions(c, "C08.R10")
+	c08R9(c, "C08.R9")
 	c02R4(c) // shared with C02 (reported as C02.R4): the trie is mutated only behind the per-connection bookkeeping
 }
 
@@ -316,4 +320,83 @@ func c08R5(c *core.Ctx) {
 		ok, w := eng.MustFollow(f, preds, func(i ssa.Instruction) bool { return i == pubs[0].(ssa.Instruction) })
 		c.Check(ok, rule, name+":publishes whenever authorised", pubs[0].Pos(), "an authorised will is always published", fmt.Sprintf("an authorised will is not published: %v", w))
 	}
+}
+
+// c08R9: the will Close publishes is the one the client sent. Conn.onConnect builds c.connect
+// from the CONNECT packet field by field: WillFlag<-WillFlag, WillRetain<-WillRetainFlag,
+// WillQoS<-WillQOS, WillTopic<-WillTopic, WillMessage<-WillMessage, Username<-Username,
+// ClientID<-ClientID, Conn<-c.luid; and stores it in c.connect (the only writer of that field
+// outside the constructor).
+func c08R9(c *core.Ctx, rule string) {
+	c.Rule(rule, "Conn.onConnect copies the will and identity fields of the CONNECT packet into c.connect one to one; c.connect is written nowhere else", 2)
+	f := fn(c, rule, "internal/broker", "Conn", "onConnect")
+	if f == nil {
+		return
+	}
+	want := map[string]string{"WillFlag": "WillFlag", "WillRetain": "WillRetainFlag", "WillQoS": "WillQOS", "WillTopic": "WillTopic", "WillMessage": "WillMessage", "Username": "Username", "ClientID": "ClientID"}
+	got := map[string]string{}
+	eng.Instrs(f, func(in ssa.Instruction) {
+		st, ok := in.(*ssa.Store)
+		if !ok {
+			return
+		}
+		fa, ok := st.Addr.(*ssa.FieldAddr)
+		if !ok {
+			return
+		}
+		owner, fl, _, ok := eng.FieldOf(fa)
+		if !ok || !strings.HasSuffix(owner, "event.Connection") {
+			return
+		}
+		src := ""
+		if b, sfl, isLoad := loadOfAnyField(st.Val); isLoad && b == ssa.Value(f.Params[1]) {
+			src = sfl
+		}
+		got[fl] = src
+	})
+	var bad []string
+	for k, v := range want {
+		if got[k] != v {
+			bad = append(bad, fmt.Sprintf("%s<-%q (want packet.%s)", k, got[k], v))
+		}
+	}
+	sort.Strings(bad)
+	c.Check(len(bad) == 0, rule, fnName(f)+":will captured field by field", f.Pos(), "the connection event carries the packet's will topic, message, flag, retain, QoS, user name and client id", "onConnect does not copy the CONNECT packet one to one into c.connect: "+strings.Join(bad, ", ")+" — Close would publish another will (or none)")
+	// writers of Conn.connect
+	n := 0
+	for _, g := range c.P.ScopeFuncs() {
+		eng.Instrs(g, func(in ssa.Instruction) {
+			st, ok := in.(*ssa.Store)
+			if !ok {
+				return
+			}
+			fa, ok := st.Addr.(*ssa.FieldAddr)
+			if !ok {
+				return
+			}
+			owner, fl, _, ok := eng.FieldOf(fa)
+			if !ok || fl != "connect" || !strings.HasSuffix(owner, "broker.Conn") {
+				return
+			}
+			n++
+			c.Check(g == f, rule, fnName(g)+":writes Conn.connect", st.Pos(), "c.connect is set by onConnect", "c.connect (the will Close publishes) is also written by "+fnName(g))
+		})
+	}
+	if n == 0 {
+		c.Fail(rule, fnName(f)+":stores c.connect", f.Pos(), "onConnect no longer stores the connection event in c.connect: no will is ever published")
+	}
+}
+
+// loadOfAnyField: v is a load of base.<field>; returns base and the field name.
+func loadOfAnyField(v ssa.Value) (ssa.Value, string, bool) {
+	u, ok := v.(*ssa.UnOp)
+	if !ok || u.Op != token.MUL {
+		return nil, "", false
+	}
+	fa, ok := u.X.(*ssa.FieldAddr)
+	if !ok {
+		return nil, "", false
+	}
+	_, fl, _, ok := eng.FieldOf(fa)
+	return fa.X, fl, ok
 }
